@@ -737,13 +737,23 @@ async def run_case(case):
 def main():
     payload = json.load(sys.stdin)
     res = []
+    hangs = 0
     for case in payload["cases"]:
+        if hangs >= 2:
+            # enough: histories do not come to an end any more; do not spend the whole budget on the watchdog
+            res.append({"backend": case["backend"], "seed": case.get("seed"), "steps": [], "skipped": True})
+            continue
+        import time
+        t0 = time.time()
         try:
-            res.append(guarded_run(run_case, case, backend=case["backend"]))
+            res.append(guarded_run(run_case, case, backend=case["backend"], seconds=25))
         except BaseException as e:  # noqa
             import traceback
+            # an operation that did not return within its 20 s (or the watchdog's 25 s): something waits for ever
+            hung = type(e).__name__ == "HarnessHang" or time.time() - t0 > 15
+            hangs += hung
             res.append({"backend": case["backend"], "seed": case.get("seed"), "steps": [],
-                        "ops": case.get("_trace", []), "crash": traceback.format_exc()[-2000:]})
+                        "ops": case.get("_trace", []), "crash": traceback.format_exc()[-2000:], "hang": hung})
     print("@@" + json.dumps({"results": res}))
 
 
